@@ -58,10 +58,12 @@ UNDECIDED_KINDS = ('rlimit', 'resource limit', 'timed out', 'timeout', 'panicked
 def run_verus_unit(unit, outdir, repo_dir, rlimit=None, canary=True):
     """Extract + verify one unit.  Returns dict(result=..., functions=[...], failures=[...], ...)."""
     t0 = time.time()
-    tmpl = os.path.join(VERIF, 'units', unit + '.rs')
+    base, _, feats = unit.partition('+')
+    features = [f for f in feats.split(',') if f] if feats or '+' in unit else None
+    tmpl = os.path.join(VERIF, 'units', base + '.rs')
     res = {'engine': 'verus', 'unit': unit, 'result': UNDECIDED, 'functions': [], 'failures': [],
            'items': [], 'assumptions': [], 'reason': '', 'smt_s': 0.0, 'wall_s': 0.0, 'cmd': ''}
-    u = extract.Unit(repo_dir, VERIF, tmpl)
+    u = extract.Unit(repo_dir, VERIF, tmpl, features=features)
     try:
         text = u.render()
     except extract.ExtractError as e:
@@ -199,6 +201,14 @@ def kani_inject(scratch, crate):
         text = kani_spec_text(text)
         hdr = cfg.get('spec_prelude', {}).get(sp, 'use super::*;\n')
         open(os.path.join(dst, 'spec_' + sp + '.rs'), 'w').write('#![allow(dead_code, unused_imports, unused_parens, missing_docs, unreachable_pub, clippy::all)]\n' + hdr + text)
+    for tp in cfg.get('templates', []):
+        # Kani on mechanically extracted functions (same extractor and rules as the Verus units)
+        u = extract.Unit(scratch.repo, VERIF, os.path.join(VERIF, tp['template']))
+        try:
+            open(os.path.join(dst, tp['out']), 'w').write(u.render())
+        except extract.ExtractError as e:
+            open(os.path.join(dst, tp['out']), 'w').write(f'compile_error!("extraction failed: {e}");\n')
+        os.remove(os.path.join(dst, os.path.basename(tp['template']))) if os.path.exists(os.path.join(dst, os.path.basename(tp['template']))) else None
     guard = '#[cfg(any(kani, verif_replay))]'
     root = os.path.join(cdir, cfg.get('root', 'src/lib.rs'))
     with open(root, 'a') as f:
